@@ -89,46 +89,7 @@ func checkC10(c *Ctx) {
 	c.check(closesDecCh, "C10.a", "read: defer close(decCh)", read.Pos(), "registered in the entry block, before the read loop", "the reader no longer closes decCh on exit: Close() and WaitGreeting() block for ever")
 	c.check(defersTeardown, "C10.a", "read: defer recover+closeWithError", read.Pos(), "a deferred function recovers and calls closeWithError on all of its paths", "the reader's deferred teardown does not always run closeWithError: pending commands hang after the connection is lost")
 	// ---- (a) closeWithError -------------------------------------------------
-	gf := mustFlowDeep(cwe, facts{}, func(f facts, i ssa.Instruction) facts {
-		switch x := i.(type) {
-		case *ssa.Store:
-			if r, ok := fieldOf(x.Addr); ok && r.is("Client", "pendingCmds") && isNilConst(x.Val) {
-				return f.with("took-list")
-			}
-		case ssa.CallInstruction:
-			cc := x.Common()
-			if cc.IsInvoke() && cc.Method.Name() == "Close" {
-				if r, ok := loadedField(cc.Value); ok && r.is("Client", "conn") {
-					return f.with("conn-closed")
-				}
-			}
-		}
-		return f
-	}, nil)
-	okAll, n := true, 0
-	var bad = cwe.Pos()
-	for _, ret := range returnsOf(cwe) {
-		fs, reach := gf.at(ret)
-		if !reach {
-			continue
-		}
-		n++
-		if !fs.has("took-list") || !fs.has("conn-closed") {
-			okAll = false
-			bad = ret.Pos()
-		}
-	}
-	c.check(okAll && n > 0, "C10.a", "closeWithError: every path closes the connection and takes the pending list", bad,
-		fmt.Sprintf("all %d return paths have closed the connection and emptied pendingCmds", n),
-		"a path of closeWithError returns without taking the pending commands: they are never completed and their Wait() blocks for ever")
-	// the loop completing each taken command
-	loops := false
-	allInstrs(cwe, func(i ssa.Instruction) {
-		if call, ok := i.(*ssa.Call); ok && staticCallee(call) == complete && reaches2(call.Block(), call.Block()) {
-			loops = true
-		}
-	})
-	c.check(loops, "C10.a", "closeWithError: completes each taken command", cwe.Pos(), "completeCommand is called in a loop over the taken list", "closeWithError no longer completes the commands it removed from the pending list")
+	ruleTeardownTakesAll(c, "C10.a", cwe, complete)
 	// only the taken (local) list is iterated; the lock is released before completing (completeCommand locks)
 	// ---- (b), (f) via the C13 rules ------------------------------------------
 	cut := layeringCut(c, "C10.L")
@@ -544,4 +505,50 @@ func ruleFlushCloses(c *Ctx, rule string, flush, cwe *ssa.Function) {
 		return
 	}
 	c.check(okD, rule, "flush: write error closes the client", flush.Pos(), "the failure edge of CRLF() leads to closeWithError on every path (except where the error is the server's own tagged refusal)", "a failed write of a command is ignored: the command stays pending for ever although it was never sent")
+}
+
+// ruleTeardownTakesAll: closeWithError closes the connection, takes the whole
+// pending list and completes each command, on every path (C10.a; also run
+// under C13: "every submitted command completes exactly once").
+func ruleTeardownTakesAll(c *Ctx, rule string, cwe, complete *ssa.Function) {
+	gf := mustFlowDeep(cwe, facts{}, func(f facts, i ssa.Instruction) facts {
+		switch x := i.(type) {
+		case *ssa.Store:
+			if r, ok := fieldOf(x.Addr); ok && r.is("Client", "pendingCmds") && isNilConst(x.Val) {
+				return f.with("took-list")
+			}
+		case ssa.CallInstruction:
+			cc := x.Common()
+			if cc.IsInvoke() && cc.Method.Name() == "Close" {
+				if r, ok := loadedField(cc.Value); ok && r.is("Client", "conn") {
+					return f.with("conn-closed")
+				}
+			}
+		}
+		return f
+	}, nil)
+	okAll, n := true, 0
+	var bad = cwe.Pos()
+	for _, ret := range returnsOf(cwe) {
+		fs, reach := gf.at(ret)
+		if !reach {
+			continue
+		}
+		n++
+		if !fs.has("took-list") || !fs.has("conn-closed") {
+			okAll = false
+			bad = ret.Pos()
+		}
+	}
+	c.check(okAll && n > 0, rule, "closeWithError: every path closes the connection and takes the pending list", bad,
+		fmt.Sprintf("all %d return paths have closed the connection and emptied pendingCmds", n),
+		"a path of closeWithError returns without taking the pending commands: they are never completed and their Wait() blocks for ever")
+	// the loop completing each taken command
+	loops := false
+	allInstrs(cwe, func(i ssa.Instruction) {
+		if call, ok := i.(*ssa.Call); ok && staticCallee(call) == complete && reaches2(call.Block(), call.Block()) {
+			loops = true
+		}
+	})
+	c.check(loops, rule, "closeWithError: completes each taken command", cwe.Pos(), "completeCommand is called in a loop over the taken list", "closeWithError no longer completes the commands it removed from the pending list")
 }
